@@ -36,10 +36,19 @@ Main theorems (namespace `Cooler.C15`)
 * `create_append_frame`, `create_root_append_frame` (unrelated attributes and all other objects
   survive), `create_w_replaces`, `create_w_eq`, `recreate_replaces`.
 
-Partial / not proved: `copy_reads_equal` for `mv` through links (only `mv_reads_equal_plain`);
-`list_exact` for files with soft links (the traversal and the resolver are both fuel-bounded; the
-correspondence covers them).  `LinkFree` is kept by every operation except `ln -s` (`step_lf`,
-`run_lf`), whence `list_exact_history`.
+Further:
+* `mv_reads_equal` — `mv` inside one file through ANY links under the exact side condition that the
+  destination does not pass through the removed source link (`resolveAvN`);
+  `mv_through_source_counterexample` shows the conclusion fails outside it (HDF5 behaves alike).
+* `list_exact_soft` / `listing_exact_soft` — `list_exact` with soft links (no external links, links
+  nested less than `LINKFUEL` deep, traversal not cyclic — the domain on which the correspondence
+  gives verdicts): collections reached through a soft link are listed under the link's path.
+* `uri_slash`, `uri_slash_string` — corollaries of `Cooler.C19.uri_slash`; `parseCoolerUri` here IS
+  `Cooler.Strings.parseCoolerUri` followed by the component split.
+* `copy_into_itself_refused`, `copyOp_not_into_itself` — fix D26.
+`LinkFree` is kept by every operation except `ln -s` (`step_lf`, `run_lf`), whence
+`list_exact_history`.  Not proved: `list_exact` with EXTERNAL links under the specification variant
+(the code as it is violates it: D5); preservation of `StableLinks` (a decidable hypothesis, `stableB`).
 -/
 namespace Cooler.C15
 open Cooler.FileModel
@@ -3810,5 +3819,425 @@ example :
       resolve fs "A" ["s"] = some ("A", ["a"]) ∧
       resolveAvN fs "A" ["a", "b"] LINKFUEL "A" ["t"] = some ("A", ["c"]) ∧ under ["a", "b"] ["c", "x"] = false := by
   decide
+
+
+/-! ### fix D26: a group is never moved or linked into itself -/
+
+/-- same-file `mv` / `ln` / `ln -s` whose destination equals or lies under the source path is refused
+with ValueError and NOTHING changes — no file is opened, created or truncated (so the collection can
+no longer be unlinked from its own file, nor the namespace made cyclic, through these spellings) -/
+theorem copy_into_itself_refused (fs : FS) (v : Variant) (f : String) (sp dp : Path) (ow link rename soft : Bool)
+    (hk : (link || rename || soft) = true) (hu : under sp dp = true) :
+    copyOp fs v f sp f dp ow link rename soft = (fs, .err .value) := by
+  unfold copyOp
+  by_cases hflags : ((link && rename) || (link && soft) || (rename && soft)) = true
+  · simp [hflags]
+  · simp [hflags, hk, hu]
+
+/-- hence a successful same-file `mv` / `ln` / `ln -s` has its destination outside the source path -/
+theorem copyOp_not_into_itself {fs : FS} {v : Variant} {f : String} {sp dp : Path} {ow link rename soft : Bool}
+    {fs' : FS} (hk : (link || rename || soft) = true)
+    (h : copyOp fs v f sp f dp ow link rename soft = (fs', .ok)) : under sp dp = false := by
+  cases hu : under sp dp with
+  | false => rfl
+  | true => rw [copy_into_itself_refused fs v f sp dp ow link rename soft hk hu] at h; simp at h
+
+example :
+    let fs := run Variant.current [] [.create "A" ["a"] .a 1]
+    mv fs Variant.current "A" ["a"] "A" ["a", "b"] false = (fs, .err .value) ∧
+    ln fs Variant.current "A" ["a"] "A" ["a", "c"] false false = (fs, .err .value) ∧
+    ln fs Variant.current "A" ["a"] "A" ["a", "c"] true false = (fs, .err .value) ∧
+    ln fs Variant.current "A" [] "A" ["x"] true false = (fs, .err .value) ∧
+    (cp fs Variant.current "A" ["a"] "A" ["a", "b"] false).2 = .ok := by
+  decide
+
+
+/-! ### `list_exact` with soft links (one or several files, no external links) -/
+
+/-- no external link is stored anywhere -/
+def NoExt (fs : FS) : Prop :=
+  ∀ g h k g' t, getFile fs g = some h → lookupK h.entries k ≠ some (.ext g' t)
+
+/-- every stored soft link resolves the same with one unit of link budget less: links are nested
+less than `LINKFUEL` deep, so the fixed budget of `is_cooler`/`resolve` is never the limiting factor -/
+def StableLinks (fs : FS) : Prop :=
+  ∀ g h k t, getFile fs g = some h → lookupK h.entries k = some (.soft t) →
+    resolveN fs (LINKFUEL - 1) g t = resolveN fs LINKFUEL g t
+
+theorem foldl_some_of_foldl {fs : FS} {F : String → Path → Option Loc} {r : Path} {acc : Option Loc} {l : Loc}
+    (h : r.foldl (stepWith fs F) acc = some l) : ∃ l0, acc = some l0 := by
+  cases acc with
+  | none => rw [foldl_stepWith_none] at h; simp at h
+  | some l0 => exact ⟨l0, rfl⟩
+
+/-- nothing resolves below a dataset -/
+theorem resolve_below_dataset {fs : FS} (hw : WF fs) {n : Nat} {f : String} {q : Path} {g : String} {Q : Path}
+    {c : Nat} (hq : resolveN fs n f q = some (g, Q)) (hd : lookupE fs g Q = some (.dataset c))
+    (y : String) (r : Path) : resolveN fs n f (q ++ y :: r) = none := by
+  have e : q ++ y :: r = (q ++ [y]) ++ r := by simp
+  rw [e, resolveN_append, resolveN_snoc, hq]
+  have : stepWith fs (followN fs n) (some (g, Q)) y = none := by
+    unfold stepWith
+    simp only
+    cases hl : lookupE fs g (Q ++ [y]) with
+    | none => rfl
+    | some e' =>
+      exfalso
+      unfold lookupE at hl hd
+      cases hg : getFile fs g with
+      | none => simp [hg] at hl
+      | some hh =>
+        rw [hg] at hl hd
+        obtain ⟨o, a, hgr⟩ := (hw g hh hg).2 _ _ hl Q (under_append _ _) (by simp)
+        simp only at hd
+        rw [hd] at hgr; simp at hgr
+  rw [this, foldl_stepWith_none]
+
+theorem followN_LINKFUEL (fs : FS) : followN fs LINKFUEL = resolveN fs (LINKFUEL - 1) := rfl
+
+/-- one step of the resolver from a resolved location, in the cases the traversal distinguishes -/
+theorem resolve_step {fs : FS} {f : String} {disp : Path} {g : String} {P : Path} (x : String)
+    (hd : resolveN fs LINKFUEL f disp = some (g, P)) :
+    resolveN fs LINKFUEL f (disp ++ [x]) =
+      match lookupE fs g (P ++ [x]) with
+      | none => none
+      | some (.group _ _) => some (g, P ++ [x])
+      | some (.dataset _) => some (g, P ++ [x])
+      | some (.soft t) => resolveN fs (LINKFUEL - 1) g t
+      | some (.ext g' t) => resolveN fs (LINKFUEL - 1) g' t := by
+  rw [resolveN_snoc, hd, followN_LINKFUEL]
+  unfold stepWith
+  simp only
+  cases lookupE fs g (P ++ [x]) with
+  | none => rfl
+  | some e => cases e <;> rfl
+
+theorem isCooler_of_resolve {fs : FS} {f : String} {p : Path} {l : Loc}
+    (h : resolveN fs LINKFUEL f p = some l) : isCooler fs f p = isCoolerAt fs l := by
+  unfold isCooler isCoolerSpec isCoolerN
+  rw [h]
+
+section WalkSoft
+variable {fs : FS} (hw : WF fs) (hne : NoExt fs) (hst : StableLinks fs) (f : String)
+include hw hne hst
+
+omit hw in
+/-- soundness of the traversal: whatever it lists is recognised under the listed name -/
+theorem walk_soft_sound (p : Path) :
+    ∀ (n : Nat) (g : String) (P disp : Path), resolveN fs LINKFUEL f disp = some (g, P) →
+      Item.path p ∈ walk fs Variant.spec n g P disp → isCooler fs f p = true := by
+  intro n
+  induction n with
+  | zero => intro g P disp _ h; simp [walk] at h
+  | succ n ih =>
+    intro g P disp hd h
+    unfold walk at h
+    cases hg : getFile fs g with
+    | none => simp [hg] at h
+    | some hh =>
+      simp only [hg, List.mem_flatMap] at h
+      obtain ⟨x, _, hx⟩ := h
+      have hE : lookupE fs g (P ++ [x]) = lookupK hh.entries (P ++ [x]) := by unfold lookupE; rw [hg]
+      have hstep := resolve_step x hd
+      rw [hE] at hstep
+      cases hl : lookupK hh.entries (P ++ [x]) with
+      | none => simp [hl] at hx
+      | some e =>
+        rw [hl] at hx hstep
+        cases e with
+        | dataset c => simp at hx
+        | ext g' t => exact absurd hl (hne g hh _ g' t hg)
+        | group o a =>
+          simp only [List.mem_append] at hx hstep
+          rcases hx with hx | hx
+          · by_cases hf : fmtOK a = true
+            · simp only [hf, if_true, List.mem_singleton, Item.path.injEq] at hx
+              subst hx
+              rw [isCooler_of_resolve hstep]
+              simp [isCoolerAt, hE, hl, coolerEntry, hf]
+            · simp [hf] at hx
+          · exact ih g (P ++ [x]) (disp ++ [x]) hstep hx
+        | soft t =>
+          simp only at hx hstep
+          have hstab := hst g hh _ t hg hl
+          rw [hstab] at hstep
+          cases hr : resolve fs g t with
+          | none =>
+            rw [hr] at hx
+            simp only at hx
+            split at hx <;> simp at hx
+          | some l1 =>
+            obtain ⟨g', Q⟩ := l1
+            rw [hr] at hx
+            simp only at hx
+            have hstep' : resolveN fs LINKFUEL f (disp ++ [x]) = some (g', Q) := by rw [hstep]; exact hr
+            cases hq : lookupE fs g' Q with
+            | none => simp [hq] at hx
+            | some eq =>
+              rw [hq] at hx
+              cases eq with
+              | group o a =>
+                simp only [List.mem_append] at hx
+                rcases hx with hx | hx
+                · by_cases hf : fmtOK a = true
+                  · simp only [hf, if_true, List.mem_singleton, Item.path.injEq] at hx
+                    subst hx
+                    rw [isCooler_of_resolve hstep']
+                    simp [isCoolerAt, hq, coolerEntry, hf]
+                  · simp [hf] at hx
+                · exact ih g' Q (disp ++ [x]) hstep' hx
+              | dataset c => simp at hx
+              | soft t' => simp at hx
+              | ext g'' t' => simp at hx
+
+/-- completeness of a traversal that never ran out of recursion budget -/
+theorem walk_soft_complete :
+    ∀ (r : Path) (n : Nat) (g : String) (P disp : Path) (l : Loc),
+      resolveN fs LINKFUEL f disp = some (g, P) →
+      Item.fuel ∉ walk fs Variant.spec n g P disp → r ≠ [] →
+      resolveN fs LINKFUEL f (disp ++ r) = some l → isCoolerAt fs l = true →
+      Item.path (disp ++ r) ∈ walk fs Variant.spec n g P disp := by
+  intro r
+  induction r with
+  | nil => intro n g P disp l _ _ hr; exact absurd rfl hr
+  | cons x r ih =>
+    intro n g P disp l hd hnf _ hres hcool
+    cases n with
+    | zero => simp [walk] at hnf
+    | succ n =>
+      have e : disp ++ x :: r = (disp ++ [x]) ++ r := by simp
+      rw [e, resolveN_append] at hres
+      obtain ⟨l1, hl1⟩ := foldl_some_of_foldl hres
+      have hstep := resolve_step x hd
+      rw [hl1] at hstep
+      -- the file of the current location exists
+      have hfile : ∃ hh, getFile fs g = some hh := by
+        cases hgg : getFile fs g with
+        | some hh => exact ⟨hh, rfl⟩
+        | none =>
+          exfalso
+          rw [lookupE_absent hgg] at hstep
+          simp at hstep
+      obtain ⟨hh, hg⟩ := hfile
+      have hE : lookupE fs g (P ++ [x]) = lookupK hh.entries (P ++ [x]) := by unfold lookupE; rw [hg]
+      rw [hE] at hstep
+      -- membership in the traversal of `(g, P)`
+      have hmem : ∀ it, (lookupK hh.entries (P ++ [x])).isSome →
+          it ∈ (match lookupK hh.entries (P ++ [x]) with
+            | none => []
+            | some (.dataset _) => []
+            | some (.group _ a) =>
+              (if fmtOK a then [Item.path (disp ++ [x])] else []) ++ walk fs Variant.spec n g (P ++ [x]) (disp ++ [x])
+            | some (.soft t) =>
+              match resolve fs g t with
+              | none => if loops fs g t then [.fuel] else []
+              | some (g', Q) =>
+                match lookupE fs g' Q with
+                | some (.group _ a) =>
+                  (if fmtOK a then [Item.path (disp ++ [x])] else []) ++ walk fs Variant.spec n g' Q (disp ++ [x])
+                | _ => []
+            | some (.ext g0 t) =>
+              if g0 = g then [.fuel] else
+              match resolve fs g0 t with
+              | none => if loops fs g0 t then [.fuel] else []
+              | some (g', Q) =>
+                let d := linkName fs Variant.spec g0 t (disp ++ [x])
+                match lookupE fs g' Q with
+                | some (.group _ a) =>
+                  (if fmtOK a then [Item.path d] else []) ++ walk fs Variant.spec n g' Q d
+                | _ => []) →
+          it ∈ walk fs Variant.spec (n + 1) g P disp := by
+        intro it hs hit
+        simp only [walk, hg, List.mem_flatMap]
+        exact ⟨x, (mem_childNames _ _ _).2 hs, hit⟩
+      cases hl : lookupK hh.entries (P ++ [x]) with
+      | none => rw [hl] at hstep; simp at hstep
+      | some e0 =>
+        rw [hl] at hstep hmem
+        have hsome : (some e0 : Option Entry).isSome = true := rfl
+        cases e0 with
+        | ext g' t => exact absurd hl (hne g hh _ g' t hg)
+        | dataset c =>
+          simp only at hstep
+          have hl1' : resolveN fs LINKFUEL f (disp ++ [x]) = some (g, P ++ [x]) := by rw [hl1]; exact hstep.symm ▸ rfl
+          cases r with
+          | nil =>
+            simp only [List.foldl_nil] at hres
+            rw [hl1] at hres
+            have : l = (g, P ++ [x]) := by rw [← Option.some.inj hres]; exact Option.some.inj hstep
+            subst this
+            simp [isCoolerAt, hE, hl, coolerEntry] at hcool
+          | cons y r' =>
+            have := resolve_below_dataset hw hl1' (by rw [hE, hl]) y r'
+            rw [resolveN_append] at this
+            rw [this] at hres; simp at hres
+        | group o a =>
+          simp only at hstep
+          have hl1' : resolveN fs LINKFUEL f (disp ++ [x]) = some (g, P ++ [x]) := by rw [hl1]; exact hstep.symm ▸ rfl
+          by_cases hr : r = []
+          · subst hr
+            simp only [List.foldl_nil] at hres
+            rw [hl1] at hres
+            have : l = (g, P ++ [x]) := by rw [← Option.some.inj hres]; exact Option.some.inj hstep
+            subst this
+            have hf : fmtOK a = true := by simpa [isCoolerAt, hE, hl, coolerEntry] using hcool
+            rw [e]
+            simp only [List.append_nil]
+            exact hmem _ hsome (by simp [hf])
+          · have hsubnf : Item.fuel ∉ walk fs Variant.spec n g (P ++ [x]) (disp ++ [x]) := by
+              intro hc
+              exact hnf (hmem _ hsome (List.mem_append_right _ hc))
+            rw [← resolveN_append] at hres
+            have := ih n g (P ++ [x]) (disp ++ [x]) l hl1' hsubnf hr hres hcool
+            rw [e]
+            exact hmem _ hsome (List.mem_append_right _ this)
+        | soft t =>
+          simp only at hstep
+          have hstab := hst g hh _ t hg hl
+          rw [hstab] at hstep
+          obtain ⟨g', Q⟩ := l1
+          have hr0 : resolve fs g t = some (g', Q) := hstep.symm
+          have hl1' : resolveN fs LINKFUEL f (disp ++ [x]) = some (g', Q) := hl1
+          obtain ⟨eq, heq, hobj⟩ := resolveN_present hw _ _ _ _ _ hr0
+          rcases hobj with ⟨o, a, rfl⟩ | ⟨c, rfl⟩
+          · have hbranch : ∀ it, it ∈ (if fmtOK a then [Item.path (disp ++ [x])] else []) ++
+                walk fs Variant.spec n g' Q (disp ++ [x]) → it ∈ walk fs Variant.spec (n + 1) g P disp := by
+              intro it hit
+              refine hmem it hsome ?_
+              simp only [hr0, heq]
+              exact hit
+            by_cases hr : r = []
+            · subst hr
+              simp only [List.foldl_nil] at hres
+              rw [hl1] at hres
+              have : l = (g', Q) := (Option.some.inj hres).symm
+              subst this
+              have hf : fmtOK a = true := by simpa [isCoolerAt, heq, coolerEntry] using hcool
+              rw [e]
+              simp only [List.append_nil]
+              exact hbranch _ (by simp [hf])
+            · have hsubnf : Item.fuel ∉ walk fs Variant.spec n g' Q (disp ++ [x]) := by
+                intro hc
+                exact hnf (hbranch _ (List.mem_append_right _ hc))
+              rw [← resolveN_append] at hres
+              have := ih n g' Q (disp ++ [x]) l hl1' hsubnf hr hres hcool
+              rw [e]
+              exact hbranch _ (List.mem_append_right _ this)
+          · cases r with
+            | nil =>
+              simp only [List.foldl_nil] at hres
+              rw [hl1] at hres
+              have : l = (g', Q) := (Option.some.inj hres).symm
+              subst this
+              simp [isCoolerAt, heq, coolerEntry] at hcool
+            | cons y r' =>
+              have := resolve_below_dataset hw hl1' heq y r'
+              rw [resolveN_append] at this
+              rw [this] at hres; simp at hres
+
+end WalkSoft
+
+/-- **list_exact with soft links**: in a well-formed file system without external links whose soft
+links are nested less than `LINKFUEL` deep, whenever the traversal of file `f` completed (no
+recursion-budget exhaustion, i.e. `listing` answers `.ok` — a cyclic namespace is the one case
+excluded, and it is the one case the correspondence gives no verdict on), `list_coolers` names
+exactly the paths `is_cooler` recognises: collections reached THROUGH a soft link are listed under
+the link's path, a dangling link is skipped and is not recognised. -/
+theorem list_exact_soft {fs : FS} (hw : WF fs) (hne : NoExt fs) (hst : StableLinks fs) {f : String} {h : H5File}
+    (hg : getFile fs f = some h) (hnf : Item.fuel ∉ listItems fs Variant.spec f) (p : Path) :
+    p ∈ listCoolers fs f ↔ isCooler fs f p = true := by
+  have hroot : resolveN fs LINKFUEL f [] = some (f, []) := by
+    rw [resolveN_nil]; unfold start; rw [hg]
+  unfold listCoolers
+  rw [mem_itemPaths]
+  unfold listItems at hnf ⊢
+  rw [List.mem_append] at hnf ⊢
+  constructor
+  · rintro (h1 | h1)
+    · split at h1
+      · rename_i hc
+        simp only [List.mem_singleton, Item.path.injEq] at h1
+        subst h1
+        rw [isCooler_of_resolve hroot]; exact hc
+      · simp at h1
+    · exact walk_soft_sound hne hst f p _ f [] [] hroot h1
+  · intro hc
+    by_cases hp : p = []
+    · subst hp
+      left
+      rw [isCooler_of_resolve hroot] at hc
+      have : coolerEntry (lookupE fs f []) = true := hc
+      simp [this]
+    · right
+      unfold isCooler isCoolerSpec isCoolerN at hc
+      cases hr : resolveN fs LINKFUEL f p with
+      | none => simp [hr] at hc
+      | some l =>
+        simp only [hr] at hc
+        have := walk_soft_complete hw hne hst f p _ f [] [] l hroot (fun hh => hnf (Or.inr hh)) hp
+          (by simpa using hr) hc
+        simpa using this
+
+/-- the same in terms of the model of `fileops.list_coolers` itself -/
+theorem listing_exact_soft {fs : FS} (hw : WF fs) (hne : NoExt fs) (hst : StableLinks fs) {f : String}
+    {ps : List Path} (hl : listing fs Variant.spec f = .ok ps) (p : Path) :
+    p ∈ ps ↔ isCooler fs f p = true := by
+  unfold listing at hl
+  cases hg : getFile fs f with
+  | none => simp [hg] at hl
+  | some h =>
+    simp only [hg] at hl
+    split at hl
+    · simp at hl
+    · rename_i hc
+      simp only [Listing.ok.injEq] at hl
+      subst hl
+      have hnf : Item.fuel ∉ listItems fs Variant.spec f := by
+        intro hm; apply hc; simpa using hm
+      exact list_exact_soft hw hne hst hg hnf p
+
+/-! decidable forms of the two hypotheses, for concrete file systems -/
+
+def noExtB (fs : FS) : Bool :=
+  fs.all (fun gh => gh.2.entries.all (fun ke => match ke.2 with | .ext _ _ => false | _ => true))
+
+def stableB (fs : FS) : Bool :=
+  fs.all (fun gh => gh.2.entries.all (fun ke =>
+    match ke.2 with
+    | .soft t => decide (resolveN fs (LINKFUEL - 1) gh.1 t = resolveN fs LINKFUEL gh.1 t)
+    | _ => true))
+
+theorem noExt_of_b {fs : FS} (h : noExtB fs = true) : NoExt fs := by
+  intro g hh k g' t hg hl
+  unfold noExtB at h
+  rw [List.all_eq_true] at h
+  have h1 := h _ (getFile_mem hg)
+  rw [List.all_eq_true] at h1
+  have := h1 _ (lookupK_mem hl)
+  simp at this
+
+theorem stable_of_b {fs : FS} (h : stableB fs = true) : StableLinks fs := by
+  intro g hh k t hg hl
+  unfold stableB at h
+  rw [List.all_eq_true] at h
+  have h1 := h _ (getFile_mem hg)
+  rw [List.all_eq_true] at h1
+  have := h1 _ (lookupK_mem hl)
+  simpa using this
+
+/-- non-vacuity: a collection, a soft link to it, a soft link to that link, a soft link INTO a group
+whose child is a collection, and a dangling link — all hypotheses hold, the listing names the
+collections under the links' paths as well -/
+def fsSoft : FS := run Variant.spec []
+  [.create "A" ["a", "b"] .a 1, .ln "A" ["a", "b"] "A" ["c"] true false, .ln "A" ["c"] "A" ["d"] true false,
+   .ln "A" ["a"] "A" ["e"] true false, .ln "A" ["zz"] "A" ["y"] true false]
+
+example : noExtB fsSoft = true ∧ stableB fsSoft = true ∧
+    listing fsSoft Variant.spec "A" = .ok [["a", "b"], ["c"], ["d"], ["e", "b"]] ∧
+    isCooler fsSoft "A" ["e", "b"] = true ∧ isCooler fsSoft "A" ["y"] = false := by decide
+
+example (p : Path) : p ∈ [["a", "b"], ["c"], ["d"], ["e", "b"]] ↔ isCooler fsSoft "A" p = true :=
+  listing_exact_soft (run_wf Variant.spec _ [] wf_nil) (noExt_of_b (by decide)) (stable_of_b (by decide))
+    (by decide) p
 
 end Cooler.C15
